@@ -536,7 +536,21 @@ def rule_cover(run):
             run.violated(k2, 'the guard `%s` only excludes columns; it does not require both columns of the connection to be among the rebuilt '
                          'ones (%s), so a side shared with a column that is not rebuilt gets a mid-side node: that column is left with a '
                          'node in the interior of its edge' % (norm(guard.test), sorted(rebuilt_ops)), where=fi.where(guard))
-        else: run.unknown(k2, 'guard `%s` not recognised' % norm(guard.test), where=fi.where(guard))
+        else:
+            # `all([<test that does not mention x> for x in con.column])`: the same thing is tested for every column of the connection,
+            # so nothing is required of the connection's own columns
+            const = None
+            for t_ in ast.walk(guard.test):
+                if isinstance(t_, ast.Call) and isinstance(t_.func, ast.Name) and t_.func.id in ('all', 'any') and t_.args and isinstance(t_.args[0], (ast.ListComp, ast.GeneratorExp)):
+                    g_ = t_.args[0].generators[0]
+                    if norm(g_.iter) == '%s.column' % convar and isinstance(g_.target, ast.Name) and \
+                       not any(isinstance(x, ast.Name) and x.id == g_.target.id for x in ast.walk(t_.args[0].elt)):
+                        const = t_
+            if const is not None:
+                run.violated(k2, 'in the guard `%s` the condition does not mention the loop variable `%s`: it does not depend on the columns of the '
+                             'connection at all, so sides shared with columns that are not rebuilt get mid-side nodes too (hanging nodes)'
+                             % (norm(const)[:90], const.args[0].generators[0].target.id), where=fi.where(guard), robust=True)
+            else: run.unknown(k2, 'guard `%s` not recognised' % norm(guard.test), where=fi.where(guard))
 
 
 def rule_areasync(run):
